@@ -884,3 +884,105 @@ Proof.
     destruct Hc as [[-> ->]|[[-> ->]|[-> ->]]]; vm_compute; reflexivity. }
   split; vm_compute; reflexivity.
 Qed.
+
+(* ================================================================== meta tiles: georeference along x *)
+Local Open Scope Z_scope.
+
+Lemma rhe_exact q d : 0 < d -> rhe (q * d) d = q.
+Proof.
+  intros Hd. unfold rhe. rewrite Z.div_mul by lia. rewrite Z.mod_mul by lia.
+  replace (2 * 0 <? d) with true by (symmetry; apply Z.ltb_lt; lia). reflexivity.
+Qed.
+
+Lemma round5_int_exact q r : 0 < r -> round5_int (q * r) r = q.
+Proof.
+  intros Hr. unfold round5_int. replace (q * r * 100000) with (q * 100000 * r) by ring.
+  rewrite rhe_exact by exact Hr. apply Z.quot_mul. lia.
+Qed.
+
+Lemma nth_error_combine_seq {A} (l : list A) : forall s k,
+  nth_error (combine (seq s (length l)) l) k = option_map (fun t => ((s + k)%nat, t)) (nth_error l k).
+Proof.
+  induction l as [|a l IH]; intros s k; [destruct k; reflexivity|].
+  cbn [length seq combine]. destruct k as [|k]; cbn [nth_error option_map].
+  - rewrite Nat.add_0_r. reflexivity.
+  - rewrite IH. replace (S s + k)%nat with (s + S k)%nat by lia. reflexivity.
+Qed.
+
+Lemma meta_size_pos m l :
+  wf (mg m) -> valid_level (mg m) l = true -> 0 < msx m -> 0 < msy m ->
+  0 < fst (meta_size m l) /\ 0 < snd (meta_size m l).
+Proof.
+  intros Hwf Hv Hx Hy. pose proof (grid_size_cover (mg m) l Hwf Hv) as Hc. unfold meta_size.
+  destruct (grid_size (mg m) l) as [nx ny]. cbv zeta in Hc. cbn [fst snd]. lia.
+Qed.
+
+(* MetaGrid.meta_tile: every tile of the meta tile is cut out of the meta image at the column where its own
+   tile_bbox lies inside the (buffered, limited) meta bbox at the level resolution - exactly, with or without
+   buffer, whether or not the buffer is cut at the left edge of the grid bbox (the cut is a whole number of
+   pixels there because tile edges are on the pixel lattice that starts at the left grid edge). *)
+Lemma meta_tile_georef_x m x y l mb sz pats k tx ty tl ox oy :
+  wf (mg m) -> valid_level (mg m) l = true -> 0 < msx m -> 0 < msy m ->
+  meta_tile m x y l = (mb, sz, pats) ->
+  nth_error pats k = Some (Some (tx, ty, tl), (ox, oy)) ->
+  tl = l /\ fst (ul_offset_ground mb (tile_bbox (mg m) tx ty tl)) = ox * res_at (mg m) l.
+Proof.
+  intros Hwf Hv Hmx Hmy H Hk. set (g := mg m) in *.
+  pose proof (res_at_pos g l Hwf Hv) as Hr. pose proof Hwf as (_ & _ & Htw & Hth & _).
+  destruct (meta_size_pos m l Hwf Hv Hmx Hmy) as [Hsx Hsy].
+  unfold meta_tile in H. fold g in H.
+  destruct (main_tile m x y l) as [[x0 y0] l0] eqn:Emain.
+  assert (Ex0 : x0 = x / fst (meta_size m l) * fst (meta_size m l)).
+  { unfold main_tile in Emain. destruct (meta_size m l) as [sx sy]. injection Emain as <- _ _. reflexivity. }
+  assert (Eidem : main_tile m x0 y0 l = (x0, y0, l)).
+  { unfold main_tile in *. destruct (meta_size m l) as [sx sy]. cbn [fst snd] in *.
+    injection Emain as <- <- _. rewrite !Z.div_mul by lia. reflexivity. }
+  destruct (buffered_bbox m (unbuffered_meta_bbox m x0 y0 l) l) as [mb' buffers] eqn:Ebuf.
+  injection H as <- _ <-.
+  rewrite nth_error_map, nth_error_combine_seq in Hk.
+  destruct (nth_error (meta_tile_list m x0 y0 l (meta_size m l)) k) as [ot|] eqn:Et; [|discriminate].
+  cbn [option_map fst snd] in Hk. injection Hk as -> Hoff.
+  (* which tile *)
+  unfold meta_tile_list in Et. rewrite Eidem in Et. fold g in Et.
+  apply nth_error_create_tile_list in Et. destruct Et as (-> & Hx & _).
+  split; [reflexivity|].
+  destruct (meta_size m l) as [sx sy] eqn:Ems. cbn [fst snd] in *.
+  assert (Hlen : Z.of_nat (length (zrange x0 (x0 + sx - 1))) = sx) by (rewrite length_zrange; lia).
+  apply nth_error_zrange in Hx. destruct Hx as [Hx _].
+  rewrite Nat2Z.inj_mod, Hlen in Hx.
+  (* the offset *)
+  destruct buffers as [[[bl bb] br] bt]. unfold pattern_offset in Hoff. cbn [fst] in Hoff.
+  injection Hoff as <- _.
+  (* the left edge of the meta bbox and the left buffer *)
+  assert (Hleft : fst (fst (fst mb')) + bl * res_at g l = gx0 g + x0 * res_at g l * tw g).
+  { unfold buffered_bbox, unbuffered_meta_bbox in Ebuf. rewrite Ems in Ebuf. fold g in Ebuf.
+    set (r := res_at g l) in *.
+    assert (Hsp : 0 < r * tw g) by nia.
+    assert (Hmin : Z.min (gx0 g + x0 * r * tw g) (gx0 g + (x0 + sx - 1) * r * tw g) = gx0 g + x0 * r * tw g).
+    { apply Z.min_l. nia. }
+    destruct (tile_bbox g x0 y0 l) as [[[a0 a1] a2] a3] eqn:Ea.
+    destruct (tile_bbox g (x0 + sx - 1) (y0 + sy - 1) l) as [[[c0 c1] c2] c3] eqn:Ec.
+    assert (Ea0 : a0 = gx0 g + x0 * r * tw g) by (unfold tile_bbox in Ea; fold r in Ea; destruct (ul g); injection Ea as <- _ _ _; reflexivity).
+    assert (Ec0 : c0 = gx0 g + (x0 + sx - 1) * r * tw g) by (unfold tile_bbox in Ec; fold r in Ec; destruct (ul g); injection Ec as <- _ _ _; reflexivity).
+    unfold merge_bbox in Ebuf. rewrite Ea0, Ec0, Hmin in Ebuf.
+    destruct (mbuf m <=? 0) eqn:Eb0.
+    - injection Ebuf as <- <- _ _ _. cbn [fst]. ring.
+    - destruct (gx0 g + x0 * r * tw g - mbuf m * r <? gx0 g) eqn:Eclip;
+        repeat match type of Ebuf with
+               | context [if ?c then ?a else ?b] => destruct (if c then a else b) as [? ?]
+               end;
+        injection Ebuf as <- <- _ _ _; cbn [fst].
+      + replace (gx0 g - (gx0 g + x0 * r * tw g - mbuf m * r)) with ((mbuf m - x0 * tw g) * r) by ring.
+        rewrite round5_int_exact by exact Hr. ring.
+      + ring. }
+  unfold ul_offset_ground. destruct mb' as [[[m0 m1] m2] m3]. cbn [fst] in Hleft.
+  unfold tile_bbox. fold g. set (r := res_at g l) in *.
+  destruct (ul g); cbn [fst]; rewrite Hx; nia.
+Qed.
+
+Example meta_tile_georef_nonvacuous :
+  (* 2 x 2 meta tiles, buffer 10, at the left edge of the grid: the buffer is cut to 0 *)
+  let m := mkMeta (mkGrid (-1000) (-500) 1560 780 64 64 [40; 20; 10] true 23 20 4 1) 2 2 10 in
+  exists mb sz pats, meta_tile m 1 1 2 = (mb, sz, pats) /\
+                     nth_error pats 1 = Some (Some (1, 0, 2), (64, 0)) /\ mb = (-1000, -500, 380, 780).
+Proof. cbv zeta. do 3 eexists. split; [vm_compute; reflexivity|]. split; reflexivity. Qed.
